@@ -232,6 +232,9 @@ var componentsSim = []string{
 
 // WriteEvidence writes /verif/evidence/<id>.json.
 func WriteEvidence(r *Report) error {
+	if os.Getenv("VERIF_NO_EVIDENCE") != "" {
+		return nil // self-test runs must not overwrite the evidence of real runs
+	}
 	wall := time.Since(r.Start).Seconds()
 	st := r.Stats
 	cov := map[string]any{
